@@ -246,8 +246,8 @@ Lemma decode_res_words ws : length ws = 12%nat -> Forall small ws ->
     if cks (e / 2^64) (e mod 2^64) =? nibble_of ws then DOk (e / 2^64) (e mod 2^64) else DErrChecksum.
 Proof.
   intros Hlen Hs. unfold decode_res.
-  rewrite map_length, Hlen. cbn [Nat.eqb negb].
-  rewrite forallb_known by assumption. cbn [negb].
+  rewrite map_length, Hlen. cbn [Nat.eqb negb Nat.sub].
+  rewrite forallb_known by assumption. cbn [negb]. cbv zeta.
   rewrite firstn_map.
   assert (Hs11 : Forall small (firstn 11 ws)).
   { pose proof Hs as Hs'. rewrite <- (firstn_skipn 11 ws) in Hs'. apply Forall_app in Hs'. tauto. }
@@ -272,7 +272,7 @@ Proof.
     rewrite (N.mod_small (pack _)) by (unfold M128; vm_compute (2048^11) in Hp; consts; lia).
     apply N.mod_small. vm_compute (2048^11) in Hp; consts; lia. }
   destruct (ent_split hi' lo' _ H2 Hent) as [-> ->].
-  unfold nibble_of. fold w. reflexivity.
+  unfold nibble_of. fold w. change (2 ^ 4) with 16. destruct (_ =? _); reflexivity.
 Qed.
 End S.
 
